@@ -92,6 +92,8 @@ func runC01(p *Prog, r *Result) {
 	checkNoSpaceInsideWord(p, r, "R01g")
 	r.Rule("R01h", "every command type whose printing can begin with \"(\" has a case in startsWithLparen, which is what keeps \"( (\" from being printed as \"((\"", 3)
 	checkLparenStartersListed(p, r, "R01h")
+	r.Rule("R01i", "the separator flag that Printer.command sets to keep a `;` away from a construct's closing word is cleared before the command ends: what follows on the same line gets its separator", 3)
+	checkSeparatorFlagCleared(p, r, "R01i")
 	pkg := si.pkg
 	info := pkg.TypesInfo
 	g := buildRefGraph(p)
@@ -477,6 +479,8 @@ func inDefaultOfRootSwitch(g *FGraph, b *FBlock) bool {
 }
 
 var c01Controls = []Control{
+	{Name: "separator-flag-left-set-after-esac", Rule: "R01i", WantKey: "command#store", File: "syntax/printer.go",
+		Mutate: ctlReplaceAnywhere("\t\t// The ;; of the last item only stands in for the ; before esac,\n\t\t// not for the one before a statement which follows on the same line.\n\t\tp.wroteSemi = false\n", "")},
 	{Name: "anonymous-function-not-a-paren-starter", Rule: "R01h", WantKey: "startsWithLparen#FuncDecl", File: "syntax/printer.go",
 		Mutate: ctlReplaceAnywhere("\tcase *FuncDecl:\n\t\t// keep ( () for a zsh anonymous function like \"() { foo; }\"\n\t\treturn !node.RsrvWord && node.Name == nil && len(node.Names) == 0\n", "")},
 	{Name: "space-inside-a-word", Rule: "R01g", WantKey: "wordParts#a ProcSubst that is not the first part", File: "syntax/printer.go",
